@@ -15,6 +15,7 @@ PID = "C16"
 TOKEN_RE = re.compile(r"\A[A-Za-z0-9\-._~+/]+=*\Z")
 RID_RE = re.compile(r"\Ari\.([a-z][a-z0-9\-]*)\.((?:[a-z0-9][a-z0-9\-]*)?)\.([a-z][a-z0-9\-]*)\.([a-zA-Z0-9_\-\.]+)\Z")
 PATHS = ["from_str", "new", "json_client", "json_server", "smile", "any", "from_plain"]
+RID_PATHS = PATHS + ["clone_from"]       # a value overwritten in place by a parsed one
 
 
 def judge(mode, s_bytes, parts, want, obs, out, extra):
@@ -34,7 +35,7 @@ def judge(mode, s_bytes, parts, want, obs, out, extra):
             if o["renders"][0] != joined or [bytes(c).decode() for c in o["components"]] != parts:
                 out.violation("C16:components:render", "components do not reproduce the inputs", extra)
         return o["ok"]
-    verdicts = {k: p[k]["ok"] for k in PATHS}
+    verdicts = {k: p[k]["ok"] for k in (RID_PATHS if mode == "rid" else PATHS)}
     # the parameter decoders of generated and macro servers (one / optional / list; path-query and header flavours)
     for k, v in (p.get("decoders") or {}).items():
         verdicts["decoder:" + k] = v["ok"]
